@@ -85,9 +85,14 @@ type SchedResult struct {
 	SwitchSites []int  // first sites at which control passed to another task
 	Violation   string // first monitor violation ("" if none)
 	// Aborted: the running task stopped making progress outside a yield point
-	// (it blocked, e.g. on a lock held by a parked task), the schedule was
-	// abandoned and the remaining tasks ran freely.  Such a run is not judged.
+	// and nobody else could run (every other task was finished or blocked as
+	// well): the schedule was abandoned and the remaining tasks ran freely.
+	// Such a run is not judged.
 	Aborted bool
+	// BlockedHandoffs counts the times the running task blocked inside a real
+	// synchronisation primitive (a lock, a channel, a condition held or fed by
+	// a parked task) and control was handed to the next runnable task.
+	BlockedHandoffs int
 }
 
 var (
@@ -111,7 +116,49 @@ var (
 	sViolation    string
 	sViolated     bool
 	sAbort        bool
+	// tasks that blocked outside a yield point (see sWait) and the goroutine
+	// ids of all tasks, so that a blocked task that wakes up can be told apart
+	// from the running one when it reaches its next yield point
+	sBlocked  [maxTasks]bool
+	sNBlocked int32
+	sGid      [maxTasks]uint64
+	sHandoffs int32
 )
+
+// blockLimit is how long the running task may pass no yield point before the
+// waiting tasks conclude that it is blocked in a synchronisation primitive and
+// the next runnable one takes over.  Who takes over is a function of the
+// scheduler state alone, and a task blocks at the same place whenever the
+// same schedule is replayed, so the run stays repeatable; only a task that
+// is merely slow (more than a second inside one statement) could be taken for
+// blocked, which the determinism self-test would show.
+const blockLimit = 1 * time.Second
+
+// goid is the id of the calling goroutine (parsed from its stack header; only
+// used while some task is blocked).
+//
+//go:norace
+func goid() uint64 {
+	var buf [64]byte
+	n := runtime.Stack(buf[:], false)
+	// "goroutine 123 ["
+	var id uint64
+	for i := len("goroutine "); i < n && buf[i] >= '0' && buf[i] <= '9'; i++ {
+		id = id*10 + uint64(buf[i]-'0')
+	}
+	return id
+}
+
+//go:norace
+func sTaskOfCaller() int32 {
+	g := goid()
+	for i := int32(0); i < sN; i++ {
+		if sGid[i] == g {
+			return i
+		}
+	}
+	return -1
+}
 
 // stallLimit is how long the waiting tasks tolerate a running task that
 // passes no yield point before they abandon the schedule.  A single statement
@@ -136,9 +183,22 @@ func sWait(me int32) {
 			if sStep != lastStep {
 				lastStep = sStep
 				since = time.Now()
-			} else if time.Since(since) > stallLimit {
-				sAbort = true
-				return
+			} else if d := time.Since(since); d > blockLimit {
+				// the running task is blocked: the first runnable task after
+				// it (in task order) takes over; the others keep waiting
+				cur := sCurrent
+				if cur >= 0 && !sBlocked[cur] && sNextRunnableFrom(cur+1, cur) == me {
+					sBlocked[cur] = true
+					sNBlocked++
+					sHandoffs++
+					sSwitches++
+					sCurrent = me
+					return
+				}
+				if d > stallLimit {
+					sAbort = true
+					return
+				}
 			}
 		}
 	}
@@ -155,13 +215,26 @@ func sRand() uint64 {
 
 //go:norace
 func sNextAliveFrom(start int32, not int32) int32 {
+	if start < 0 {
+		start = 0
+	}
 	for i := int32(0); i < sN; i++ {
 		c := (start + i) % sN
-		if sAlive[c] && c != not {
+		if sAlive[c] && !sBlocked[c] && c != not {
 			return c
 		}
 	}
 	return not
+}
+
+// sNextRunnableFrom: like sNextAliveFrom, but -1 when nobody else can run.
+//
+//go:norace
+func sNextRunnableFrom(start int32, not int32) int32 {
+	if c := sNextAliveFrom(start, not); c != not {
+		return c
+	}
+	return -1
 }
 
 //go:norace
@@ -193,6 +266,25 @@ func sCheck() {
 
 //go:norace
 func sYield(site int) {
+	if sAbort {
+		return
+	}
+	if sNBlocked > 0 {
+		// is this a task that was taken for blocked and has woken up?
+		if who := sTaskOfCaller(); who >= 0 && who != sCurrent {
+			sBlocked[who] = false
+			sNBlocked--
+			if sCurrent < 0 {
+				// nobody is running (the others finished meanwhile): go on
+				sCurrent = who
+			} else {
+				sWait(who)
+				if sAbort {
+					return
+				}
+			}
+		}
+	}
 	me := sCurrent
 	if me < 0 || sAbort {
 		return
@@ -220,6 +312,7 @@ func sYield(site int) {
 
 //go:norace
 func sStart(me int32) {
+	sGid[me] = goid()
 	sWait(me)
 }
 
@@ -228,6 +321,15 @@ func sFinish(me int32) {
 	sAlive[me] = false
 	if sAbort {
 		return
+	}
+	if sBlocked[me] {
+		// a task taken for blocked that ran to its end without passing
+		// another yield point: it was not the running task any more
+		sBlocked[me] = false
+		sNBlocked--
+		if sCurrent >= 0 && sCurrent != me {
+			return
+		}
 	}
 	if sCheckEvery >= 0 {
 		sCheck()
@@ -266,6 +368,11 @@ func RunConcurrent(cfg SchedConfig, tasks []func(), monitor func() string) Sched
 	sCheckEvery = cfg.CheckEvery
 	sMonitor = monitor
 	sViolation, sViolated, sAbort = "", false, false
+	sNBlocked, sHandoffs = 0, 0
+	for i := range sBlocked {
+		sBlocked[i] = false
+		sGid[i] = 0
+	}
 	sCurrent = -1
 	verifsim.YieldHook = sYield
 	var wg sync.WaitGroup
@@ -282,7 +389,7 @@ func RunConcurrent(cfg SchedConfig, tasks []func(), monitor func() string) Sched
 	wg.Wait()
 	verifsim.YieldHook = nil
 	sMonitor = nil
-	res := SchedResult{Steps: sStep, Switches: sSwitches, Hash: sHash, Violation: sViolation, Aborted: sAbort}
+	res := SchedResult{Steps: sStep, Switches: sSwitches, Hash: sHash, Violation: sViolation, Aborted: sAbort, BlockedHandoffs: int(sHandoffs)}
 	for i := int32(0); i < sNSwitchSites; i++ {
 		res.SwitchSites = append(res.SwitchSites, int(sSwitchSites[i]))
 	}
